@@ -368,7 +368,9 @@ def tstepLine (st : TState) (toks0 : List String) : TState × String :=
       let r := pstepF st.t1.fault st.t2.fault st.p (.copy sT v dT w)
       ({ st with p := r.1 }, showOut r.2 ++ copySuffix st sT v dT w none)
     | _, _, _, _ => (st, "bad-op")
-  | ["copyb", sT, v, dT, w, n] =>
+  | ["copyb", sT, v, dT, w, n0] =>
+    -- a negative batch size: `currentBatchSize >= batchSize` holds after every entry, every entry is its own batch (= size 1)
+    let n := if n0.startsWith "-" then "1" else n0
     match parseTree sT, v.toNat?, parseTree dT, w.toNat?, n.toNat? with
     | some sT, some v, some dT, some w, some n =>
       let r := pstepF st.t1.fault st.t2.fault st.p (.copyb sT v dT w n)
